@@ -475,10 +475,7 @@ def resolve(objs, op):
     if k == 'view': return [k, i, op[2]], lambda: s[op[2]]
     if k == 'setphases':
         ps = sorted(set(op[2]), key=lambda c: PH[c])
-        # MultiStream.phases re-attaches cached views with 1-d indexers; a view that was turned into a MultiStream
-        # is left with a MultiStream class over a 1-d indexer (reads raise), so that combination is outside the model
-        multi_view = is_multi(s) and any(is_multi(v) for v in getattr(s, '_streams', {}).values())
-        if no_streams or multi_view or (not is_multi(s) and len(ps) > 1 and s.phase not in ps):
+        if no_streams or (not is_multi(s) and len(ps) > 1 and s.phase not in ps):
             return ['nop'], lambda: setattr(s, 'phases', op[2])
         return [k, i, ''.join(ps)], lambda: setattr(s, 'phases', op[2])
     if k == 'reset_cache': return [k, i], lambda: s.reset_cache()
